@@ -509,6 +509,15 @@ def r10_default_by_signature(chk: Check):
         dig = [c for c in fn_calls(ss.node) if tail(c) == "digest"]
         chk.require(len(ups) >= 1 and len(dig) >= 1 and any(isinstance(x, ast.Compare) and isinstance(x.ops[0], ast.Eq) for x in ast.walk(ss.node)), chk.fkey(ss, "compares hash streams"),
                     "same_signature must hash both values with the identifier's own encoder and compare the digests", chk.loc(ss.module, ss.node))
+        # it gives up (False) only for kinds that have nothing outside their signature: configurations, lists and dicts are always compared
+        gss = CFG(ss.node)
+        for nd in gss.live:
+            if nd.kind == "stmt" and isinstance(nd.ast, ast.Return) and isinstance(nd.ast.value, ast.Constant) and nd.ast.value.value is False:
+                gs = [(t.ast, pol) for t, pol in gss.guards(nd) if t.kind == "test"]
+                okg = len(gs) == 1 and gs[0][1] is False and isinstance(gs[0][0], ast.Call) and dotted(gs[0][0].func) == "isinstance" \
+                    and all(k in src(gs[0][0].args[1]) for k in ("Config", "list", "dict"))
+                chk.require(okg, chk.fkey(ss, "containers and configurations always compared"),
+                            f"same_signature answers False under {[(src(a), p_) for a, p_ in gs]}: a defaulted dict / list of configurations with generated paths enters the identifier once sealed", chk.loc(ss.module, nd.ast))
 
 
 def r9_tagged_value_is_the_value(chk: Check):
